@@ -21,8 +21,10 @@ use serde::{Deserialize, Serialize};
 use server::streaming::topics::consumer_group::ConsumerGroup;
 use std::collections::{BTreeMap, BTreeSet, HashMap};
 
+/// the stream's id differs from the first topic's (1 / 1 hides swapped stream / topic arguments)
+const SID: u32 = 2;
 fn sid() -> Identifier {
-    Identifier::numeric(1).unwrap()
+    Identifier::numeric(SID).unwrap()
 }
 fn tid() -> Identifier {
     Identifier::numeric(1).unwrap()
@@ -175,7 +177,7 @@ impl<'a> OInterp<'a> {
         let n = self.node();
         let parts = self.case.partitions;
         let r = n.block_on(async {
-            self.cl().create_stream("s", Some(1)).await?;
+            self.cl().create_stream("s", Some(SID)).await?;
             self.cl().create_topic(&sid(), "t", parts, CompressionAlgorithm::None, None, Some(1), IggyExpiry::NeverExpire, MaxTopicSize::Unlimited).await?;
             if self.case.two_topics {
                 self.cl().create_topic(&sid(), "u", parts, CompressionAlgorithm::None, None, Some(2), IggyExpiry::NeverExpire, MaxTopicSize::Unlimited).await?;
@@ -880,7 +882,7 @@ impl<'a> SInterp<'a> {
         let n = self.node();
         let r = n.block_on(async {
             let a = self.admin.as_ref().unwrap();
-            a.create_stream("s", Some(1)).await?;
+            a.create_stream("s", Some(SID)).await?;
             let topic_id = if self.case.topic_id == 2 { 2 } else { 1 };
             if topic_id == 2 {
                 a.create_topic(&sid(), "pad", 1, CompressionAlgorithm::None, None, Some(1), IggyExpiry::NeverExpire, MaxTopicSize::Unlimited).await?;
